@@ -40,6 +40,9 @@ NPQ_KERNELS = [
     dict(name="Bench_Schwefel12_f", file=B, cls="Schwefe1_2", func="f"),
     dict(name="Bench_Rosenbrock_f", file=B, cls="Rosenbrock", func="f"),
     dict(name="Bench_Rastrigin_f", file=B, cls="Rastrigin", func="f", cos2pi="cs"),
+    # the mean squared error inside root_mean_square_error (C19): everything before the square root, which must still be taken of it
+    dict(name="Metrics_mse", file="utils/_metrics.py", cls=None, func="root_mean_square_error", params=[("y_true", "VQ"), ("y_predict", "VQ")], ret="S1",
+         until="rmse = np.sqrt(mean_squared_error)", returns="mean_squared_error"),
 ]
 
 LEAN_TY = {"Q1": "Rat", "Mat": "Np.Mat", "Vec": "List Int", "OptVec": "Option (List Int)", "Nat": "Nat", "OptNat": "Option Nat"}
@@ -317,7 +320,7 @@ class TrQ:
 
     def __init__(self, fn, cfg):
         self.fn, self.cfg = fn, cfg
-        self.env = {"x": "Q"}
+        self.env = {p: k for p, k in cfg.get("params", [("x", "Q")])}
         self.lines = []
         self.n = 0
 
@@ -358,6 +361,8 @@ class TrQ:
         if isinstance(e, ast.BinOp):
             if isinstance(e.op, ast.Pow):
                 x, k = self.E(e.left)
+                if k == "VQ" and isinstance(e.right, ast.Constant) and isinstance(e.right.value, int) and e.right.value >= 0:
+                    return f"({x}.map (fun a => a ^ {e.right.value}))", "VQ"
                 if k in ("Q", "QT") and isinstance(e.right, ast.Constant) and isinstance(e.right.value, int) and e.right.value >= 0:
                     return f"(NpQ.map (fun a => a ^ {e.right.value}) {x})", k
                 raise NotRecognised("power " + ast.unparse(e))
@@ -365,6 +370,8 @@ class TrQ:
             if op is None:
                 raise NotRecognised("operator in " + ast.unparse(e))
             (a, ka), (b, kb) = self.E(e.left), self.E(e.right)
+            if (ka, kb) == ("VQ", "VQ"):
+                return self.bind(f"NpQ.vzip (fun a b => a {op} b) {a} {b}"), "VQ"
             if ka in ("Q", "QT") and kb == "S":
                 return f"(NpQ.map (fun a => a {op} {b}) {a})", ka
             if ka == "S" and kb in ("Q", "QT"):
@@ -381,6 +388,11 @@ class TrQ:
                 if k != "Q":
                     raise NotRecognised("sum of a non-array (or of a transposed one)")
                 return f"(NpQ.sumRows {x})", "V"
+            if is_np(f, "mean") and len(e.args) == 1 and not kw:
+                x, k = self.E(e.args[0])
+                if k != "VQ":
+                    raise NotRecognised("mean of a non-vector")
+                return self.bind(f"NpQ.vmean {x}"), "S1"
             if is_np(f, "add", "accumulate") and len(e.args) == 1 and list(kw) == ["axis"] and is_const(kw["axis"], -1):
                 x, k = self.E(e.args[0])
                 if k != "Q":
@@ -396,27 +408,39 @@ class TrQ:
 
     def render(self):
         cfg = self.cfg
-        if [a.arg for a in self.fn.args.args] != ["self", "x"]:
+        plist = cfg.get("params", [("x", "Q")])
+        if [a.arg for a in self.fn.args.args if a.arg != "self"] != [p for p, _ in plist]:
             raise NotRecognised("parameters")
         body = [st for st in self.fn.body if not (isinstance(st, ast.Expr) and isinstance(st.value, ast.Constant))]
+        if cfg.get("until"):
+            # prefix translation: the statements before `until`; the value handed on must still be used by the untranslated tail
+            cut = next((k for k, st in enumerate(body) if ast.unparse(st) == cfg["until"]), None)
+            if cut is None:
+                raise NotRecognised(f"statement '{cfg['until']}' not found")
+            if not (len(body) == cut + 2 and ast.unparse(body[cut + 1]) == "return " + ast.unparse(body[cut].targets[0])):
+                raise NotRecognised("the tail after the translated prefix")
+            body = body[:cut] + [ast.Return(value=ast.Name(id=cfg["returns"], ctx=ast.Load()))]
         if not body or not isinstance(body[-1], ast.Return) or body[-1].value is None:
             raise NotRecognised("the function does not end in a return")
         for st in body[:-1]:
             if not (isinstance(st, ast.Assign) and len(st.targets) == 1 and isinstance(st.targets[0], ast.Name)):
                 raise NotRecognised("statement " + ast.unparse(st)[:60])
             x, k = self.E(st.value)
-            if k not in ("Q", "QT"):
+            if k not in ("Q", "QT", "VQ", "S1"):
                 raise NotRecognised("assigned kind")
             self.lines.append(f"  let {st.targets[0].id} := {x}")
             self.env[st.targets[0].id] = k
         x, k = self.E(body[-1].value)
-        if k != "V":
+        if k != cfg.get("ret", "V"):
             raise NotRecognised("returned kind")
         self.lines.append(f"  return {x}")
-        params = ([f"({cfg['cos2pi']} : Rat → Rat)"] if cfg.get("cos2pi") else []) + ["(x : NpQ.Mat)"]
-        return ("/- GENERATED by harness/extract/np2lean.py from src/thefittest/" + cfg["file"] + f" ({cfg['cls']}.{cfg['func']}) — do not edit -/\n"
+        lean_k = {"Q": "NpQ.Mat", "VQ": "List Rat"}
+        params = ([f"({cfg['cos2pi']} : Rat → Rat)"] if cfg.get("cos2pi") else []) + [f"({p} : {lean_k[k_]})" for p, k_ in plist]
+        cls_txt = (cfg["cls"] + ".") if cfg["cls"] else ""
+        ret_ty = "Rat" if cfg.get("ret") == "S1" else "List Rat"
+        return ("/- GENERATED by harness/extract/np2lean.py from src/thefittest/" + cfg["file"] + f" ({cls_txt}{cfg['func']}) — do not edit -/\n"
                 + "import TFV.Model.NpQ\nnamespace TFV.Generated.Src\nopen TFV\n\n"
-                + f"def {cfg['name']} " + " ".join(params) + " : Option (List Rat) := do\n" + "\n".join(self.lines) + "\n\nend TFV.Generated.Src\n")
+                + f"def {cfg['name']} " + " ".join(params) + f" : Option ({ret_ty}) := do\n" + "\n".join(self.lines) + "\n\nend TFV.Generated.Src\n")
 
 
 def translate(repo: Path, cfg: dict) -> str:
